@@ -7,7 +7,7 @@ import shutil
 import subprocess
 import torch
 import sleap_io as sio
-from omegaconf import DictConfig, OmegaConf
+from omegaconf import DictConfig, OmegaConf, open_dict
 import lightning as L
 import litdata as ld
 import wandb
@@ -883,7 +883,9 @@ class ModelTrainer:
 
         finally:
             if self.config.trainer_config.use_wandb:
-                self.config.trainer_config.wandb.run_id = wandb.run.id
+                # `run_id` is not a field of `WandBConfig` (structured configs)
+                with open_dict(self.config.trainer_config.wandb):
+                    self.config.trainer_config.wandb.run_id = wandb.run.id
                 wandb.finish()
 
             # save the config with wandb runid
